@@ -92,7 +92,7 @@ class ContextService(ServiceWithOperations):
                         descr = self._mdib.descriptions.handle.get_one(handle, allow_none=True)
                         if descr:
                             if pm_names.MdsDescriptor == descr.NODETYPE:
-                                tmp = list(self._mdib.context_states.objects)
+                                tmp = [s for s in self._mdib.context_states.objects if s.source_mds == descr.Handle]
                     if tmp:
                         for state in tmp:
                             context_state_containers_lookup[state.Handle] = state
